@@ -24,6 +24,9 @@ func VerifHarness_C07() {
 	if mode == 1 {
 		o.MinNodes = int(verifInt("min", 1, int64(N)))
 	}
+	if verifShape(8) == 1 {
+		o.MaxNodeAge = "1h" // tainted nodes are reused whatever their age (creation ages are symbolic up to ~27 h)
+	}
 	extra := verifInt("asg.extraDesired", 0, 1)
 	g := w.addGroup(o, 0, asgMax, extra)
 	classes := [][]int{{tcNone, tcEsc}, {tcNone, tcEsc, tcForce}, {tcEsc, tcForce}, {tcEsc}}[menu]
